@@ -400,6 +400,10 @@ func (encryptor *QueryDataEncryptor) onReturning(ctx context.Context, returning 
 // OnQuery raw data in query according to TableSchemaStore
 func (encryptor *QueryDataEncryptor) OnQuery(ctx context.Context, query OnQueryObject) (OnQueryObject, bool, error) {
 	encryptor.querySelectSettings = nil
+	// forget settings of result columns of the previous query: they must not be applied to the response on this one
+	if clientSession := decryptor.ClientSessionFromContext(ctx); clientSession != nil {
+		base.SaveQueryDataItemsToClientSession(clientSession, nil)
+	}
 	parseResult, err := query.Statement()
 	if err != nil || len(parseResult.Stmts) == 0 {
 		logrus.Debugln("Failed to parse incoming query", err)
